@@ -133,6 +133,14 @@ func (b *BitMatrix) FlipAll() {
 	for i := 0; i < max; i++ {
 		b.bits[i] = ^b.bits[i]
 	}
+	// the bits of each row's last word beyond the width stay clear:
+	// GetBottomRightOnBit, GetEnclosingRectangle and GetRow read whole words
+	if r := uint(b.width % 32); r != 0 {
+		mask := uint32(1)<<r - 1
+		for y := 0; y < b.height; y++ {
+			b.bits[(y+1)*b.rowSize-1] &= mask
+		}
+	}
 }
 
 func (b *BitMatrix) Xor(mask *BitMatrix) error {
